@@ -142,9 +142,10 @@ Proof.
   { unfold render_term. cbn [app]. f_equal. rewrite <- app_assoc. cbn [app].
     rewrite <- (take_drop_while is_id_char r) at 1. rewrite Ed. rewrite <- app_assoc. reflexivity. }
   rewrite Hl at 2.
-  replace (length (c :: take_while is_id_char r) + 1 + length idx + 1) with (length (render_term (c :: take_while is_id_char r) idx))
+  assert (Hlen : length (c :: take_while is_id_char r) + 1 + length idx + 1
+                = length (render_term (c :: take_while is_id_char r) idx))
     by (rewrite render_term_length; reflexivity).
-  rewrite skipn_app_length. exact Hl.
+  cbn [length Nat.add] in Hlen. rewrite Hlen. rewrite skipn_app_length. exact Hl.
 Qed.
 
 Lemma scan_render : forall fuel l sg tl, scan fuel l = (sg, tl) -> render_segs sg tl = l.
@@ -167,8 +168,8 @@ Theorem rewrite_is_stream names (eq : str) :
 Proof.
   unfold rewrite. destruct (segments eq) as [sg tl] eqn:Es. cbn [fst snd].
   unfold segments in Es. pose proof (scan_render _ _ _ _ Es) as Hr.
-  pose proof (splice_stream names sg tl []) as H. cbn [length app] in H. rewrite Hr in H. rewrite H.
-  destruct (stream names sg tl); reflexivity.
+  pose proof (splice_stream names sg tl []) as H. cbn [length app] in H. rewrite Hr in H.
+  etransitivity; [exact H|]. destruct (stream names sg tl); reflexivity.
 Qed.
 
 (* ================================================================== the segmentation of a well-formed equation *)
@@ -210,7 +211,7 @@ Lemma match_here_term n i rest : ident n -> idx_ok i ->
 Proof.
   intros (c & r & -> & Hc & Hr) Hi. unfold render_term, match_here. cbn [app]. rewrite Hc.
   rewrite <- app_assoc. cbn [app].
-  destruct (take_while_all is_id_char r ("["%char :: i ++ ["]"%char] ++ rest) Hr bracket_not_id) as [Ht Hd].
+  destruct (take_while_all is_id_char r ("["%char :: (i ++ ["]"%char]) ++ rest) Hr bracket_not_id) as [Ht Hd].
   rewrite Ht, Hd. change (ascii_eqb "[" "[") with true. cbv iota.
   rewrite <- app_assoc. cbn [app]. rewrite (find_close_ok i rest Hi). reflexivity.
 Qed.
@@ -312,6 +313,11 @@ Proof.
 Qed.
 
 (* the hypotheses are met by an equation of the grammar; the result is the expected Fortran statement *)
+Ltac nb_tac := let c := fresh "c" in let H := fresh "H" in
+  intros c H; vm_compute in H; repeat (destruct H as [<-|H]; [reflexivity|]); destruct H.
+Ltac iok_tac := let c := fresh "c" in let H := fresh "H" in
+  intros c H; vm_compute in H; repeat (destruct H as [<-|H]; [split; reflexivity|]); destruct H.
+
 Example rewrite_example :
   let names := [lit "Y"; lit "C"; lit "alpha"] in
   let sg := [([], lit "Y", lit "t"); (lit " = ", lit "alpha", lit "t"); (lit " * exp(", lit "C", lit "t-1")] in
@@ -320,18 +326,14 @@ Example rewrite_example :
   rewrite names (lit "Y[t] = alpha[t] * exp(C[t-1]) + 2")
   = Some (lit "solved_values(1, index) = solved_values(3, index) * exp(solved_values(2, index-1)) + 2").
 Proof.
-  cbv zeta. repeat split; try reflexivity.
-  - intros c [<-|[]].
-  - left; reflexivity.
-  - exists "Y"%char, []. repeat split.
-  - intros c [<-|[]]; split; reflexivity.
-  - intros c H. repeat (destruct H as [<-|H]; [reflexivity|]). destruct H.
-  - right. exists (lit " ="), " "%char. split; reflexivity.
-  - exists "a"%char, (lit "lpha"). repeat split.
-  - intros c [<-|[]]; split; reflexivity.
-  - intros c H. repeat (destruct H as [<-|H]; [reflexivity|]). destruct H.
-  - right. exists (lit " * exp"), "("%char. split; reflexivity.
-  - exists "C"%char, []. repeat split.
-  - intros c H. repeat (destruct H as [<-|H]; [split; reflexivity|]). destruct H.
-  - intros c H. repeat (destruct H as [<-|H]; [reflexivity|]). destruct H.
+  cbv zeta. split; [|split; [|split]].
+  - cbn [wf_segs].
+    split; [nb_tac|]. split; [left; reflexivity|]. split; [exists "Y"%char, []; repeat split|]. split; [iok_tac|].
+    split; [nb_tac|]. split; [right; exists (lit " ="), " "%char; split; reflexivity|].
+    split; [exists "a"%char, (lit "lpha"); repeat split|]. split; [iok_tac|].
+    split; [nb_tac|]. split; [right; exists (lit " * exp"), "("%char; split; reflexivity|].
+    split; [exists "C"%char, []; repeat split|]. split; [iok_tac|]. exact I.
+  - nb_tac.
+  - reflexivity.
+  - vm_compute. reflexivity.
 Qed.
